@@ -11,6 +11,7 @@ The theorems (Props/C03.lean) are about the same `Wt`/`Closed` definitions and t
 """
 import os, re, subprocess
 import vlib
+from props import unify as unify_stream
 
 STAGES = ["core", "mono", "lift", "anf"]
 
@@ -153,7 +154,16 @@ def run_pres_match(ctx):
 
 
 def collect(ctx):
+    prog = os.path.join(ctx.run_dir, "c03.progress")
+    if os.path.exists(prog):
+        os.remove(prog)
     ok, out = ctx.gv("c03")
+    if not ok and os.path.exists(prog):
+        # the process died while the typer was on this hand-written ill-typed program (stack overflow)
+        cid, kind, esrc = (open(prog).read().rstrip("\n").split("\t") + ["", ""])[:3]
+        ctx.report({"oracle": "ill-typed", "kind": kind, "outcome": "abort"},
+                   "an ill-typed program kills the compiler process (stack overflow in the typer)",
+                   {"id": cid, "src": vlib.unesc(esrc), "harness_output": out[-300:]})
     rows = vlib.read_tsv(os.path.join(ctx.run_dir, "c03.cases.tsv")) if ok else []
     progs, feats, kinds = {}, "", ""
     for r in rows:
@@ -180,6 +190,8 @@ def collect(ctx):
         elif k == "ILL":
             d["ill"] = {"kind": r[2], "site": r[3], "outcome": r[4], "stage": r[5] if len(r) > 5 else "",
                         "message": vlib.unesc(r[6]) if len(r) > 6 else ""}
+        elif k == "ILLU":
+            d["illu"] = {"aim": r[2], "hit": r[3] == "hit", "classes": r[5].split() if len(r) > 5 else []}
         elif k in ("PANIC", "REJECT"):
             d[k.lower()] = (r[2], vlib.unesc(r[3]) if len(r) > 3 else "")
         elif k == "DONE":
@@ -251,7 +263,8 @@ def arity_oracle(ctx, progs, res):
 
 def run(ctx):
     ctx.extract()
-    ctx.build_lean([m for m in ("GomlVerif.Props.C03", "GomlVerif.Props.C03pres", "GomlVerif.Props.C03Arity")
+    ctx.build_lean([m for m in ("GomlVerif.Props.C03", "GomlVerif.Props.C03pres", "GomlVerif.Props.C03Arity",
+                                "GomlVerif.Props.Unify", "GomlVerif.Props.Solve")
                     if os.path.exists(os.path.join(vlib.LEAN, m.replace(".", "/") + ".lean"))])
     if not ctx.build_harness():
         return ctx.finish("proof", {"evaluations": 0, "distinct_nontrivial": 0}, [], "lake build")
@@ -384,12 +397,28 @@ def run(ctx):
             ctx.report({"oracle": "ill-typed", "kind": ill["kind"], "outcome": "rejected-outside-the-typer", "stage": ill["stage"]},
                        "a program with one injected type error is rejected, but not by the typer", payload)
     arity_cov = arity_oracle(ctx, progs, res)
-    ctx.violations.sort(key=lambda v: len(v[2].get("src") or "x" * 10**6))
+    # ------------------------------------------------------------------ the unifier: scripts on the real Typer vs the model
+    uni = unify_stream.run(ctx)
+    sol = unify_stream.run_solve(ctx)
+    # programs whose rejection goes through each diagnostic class of `unify` (rows ILLU of the ill-typed stream)
+    prog_classes, prog_miss = {}, []
+    for k, d in progs.items():
+        u = d.get("illu")
+        if not u:
+            continue
+        for c in set(u["classes"]) - {"other"}:
+            prog_classes[c] = prog_classes.get(c, 0) + 1
+        if not u["hit"]:
+            prog_miss.append(k)
+    if prog_miss:
+        ctx.broken_ties.append(("illu programs", "no diagnostic of the aimed unify class: " + ", ".join(prog_miss[:6])))
+    ctx.violations.sort(key=lambda v: len(v[2].get("src") or v[2].get("script") or "x" * 10**6))
     cov = {
-        "evaluations": n_dumps + n_ill, "distinct_nontrivial": len(distinct) + len(ill_kinds),
+        "evaluations": n_dumps + n_ill + uni.get("unify_steps", 0) + sol.get("queues", 0),
+        "distinct_nontrivial": len(distinct) + len(ill_kinds) + uni.get("distinct_unify_steps", 0) + sol.get("distinct(diagnostics, kinds, left-over)", 0),
         "rule": "one evaluation = one real stage dump of an accepted program checked by Wt.errs/Closed, or one ill-typed variant compiled by the "
-                "real compiler; programs: 74 corpus programs, witnesses under corpus/C03 and C07, generated programs (C01's generator incl. the "
-                "rich-generics library); distinct by Core size / by kind of injected error",
+                "real compiler, or one `unify` step run on the real Typer and on the model; programs: 74 corpus programs, witnesses under corpus/C03 and C07, generated programs (C01's generator incl. the "
+                "rich-generics library); distinct by Core size / by kind of injected error / by (class, both argument types) of a unify step",
         "samples": samples or [{"id": "corpus only"}],
         "stage_dumps_checked": n_dumps, "stage_dumps_well_typed": n_wt,
         "per_stage(checked, well-typed)": per_stage, "dumps_after_mono_closed": n_closed,
@@ -400,7 +429,10 @@ def run(ctx):
         "pass_preservation(per pass: functions; inside the decidable hypothesis; input judged wt; theorem applicable; "
         "output of the MODEL pass judged wt; real output judged wt; closedness in / in and out)": pres,
         "generator_features": feats, "injection_kinds": kinds,
-        "impl_oracle_failures": len(ctx.violations) + sum(h["count"] for h in ctx.known_hits), "model_diffs": 0,
+        "unifier(real Typer::unify/norm driven through the goml_verif hook, vs Model/Unify.lean)": uni,
+        "unify_diagnostic_classes_reached_by_whole_programs(class: programs)": prog_classes,
+        "solver(real Typer::solve on generated constraint queues, vs Model/Solve.lean)": sol,
+        "impl_oracle_failures": len(ctx.violations) + sum(h["count"] for h in ctx.known_hits), "model_diffs": uni.get("model_diffs", 0) + sol.get("model_diffs", 0),
     }
     cov["argument_count(c03arity.rs)"] = arity_cov
     ctx.assumptions += [
@@ -410,8 +442,11 @@ def run(ctx):
         "the type of the bound value in blocks (compile_match.rs), is printed by no dump and read by no pass, and is only counted",
         "ill-typed variants are ill-typed by construction: the wrong value is a bool/string literal at a position whose type is fixed by a "
         "declaration, an annotation, a sibling branch/element or an operator; the un-mutated program must be accepted",
-        "the typer's inference itself is not modelled (3 300 lines); its outputs are checked and its rejections sampled",
+        "of the typer's inference, the unifier (typer/unify.rs: occurs, norm, unify, the ena table) is modelled (Model/Unify.lean) and tied by "
+        "scripts run on the real Typer through the cfg(goml_verif) hook; constraint generation (check.rs) and the solve loop are not modelled: "
+        "their outputs are checked and their rejections sampled",
+        "the ena table is modelled by what the typer observes of it (find, probe_value, rank-directed choice of the root); path compression is not",
     ]
     tb = ["Lean 4 kernel", "axioms: " + ",".join(ctx.proof["axioms"] or ["none"]), "harness/src/c03.rs, c07.rs, dump.rs",
-          "Driver/C03.lean, DecSyntax.lean", "tools/props/c03.py", "the generator's own typing (harness/src/progen.rs)"]
+          "Driver/C03.lean, Driver/Unify.lean, DecSyntax.lean", "tools/props/c03.py, unify.py", "harness/src/unify.rs + the verif-hook commit in goml", "the generator's own typing (harness/src/progen.rs)"]
     return ctx.finish("proof", cov, tb, "lake build GomlVerif.Props.C03 && lake env lean Axioms.lean (#print axioms); gomlmodel c03 on the real dumps")
